@@ -65,7 +65,9 @@ def check(case):
 def byte_bulk(tier, shard, nshards, rec):
     plan = D.byte_sweep_plan(tier)[shard::nshards]
     n = nt = 0
-    for i, off in plan:
+    from pbt.runner import set_logging
+    for k, (i, off) in enumerate(plan):
+        set_logging(k % 2 == 0)
         name, data, marks = D.seeds()[i]
         orig = data[off]
         b = bytearray(data)
